@@ -16,7 +16,8 @@ Which == {"stream", "conn"} \* which limit the offset is aimed at
 
 StreamCases == {[k |-> kind, v |-> v, idc |-> c, rel |-> r, lim |-> w] :
                   kind \in {"stream", "reset"}, v \in Victims, c \in IdClass, r \in Rel, w \in Which}
-FinCases == {[k |-> "finthenmore", v |-> v, idc |-> c, rel |-> r, lim |-> "stream"] :
+FinCases == {[k |-> kind, v |-> v, idc |-> c, rel |-> r, lim |-> "stream"] :
+               kind \in {"finthenmore", "morethenfin"},
                v \in Victims, c \in {"peer_bidi_first", "peer_uni_first"}, r \in {0, 1}}
 IdOnly == {[k |-> kind, v |-> v, idc |-> c, rel |-> 0, lim |-> "stream"] :
              kind \in {"stop", "maxsd", "sdblocked"}, v \in Victims, c \in IdClass}
